@@ -53,6 +53,7 @@ Section PBounded.
       assert (E0 : N.eqb (l_id l) (l_id o) = true) by (apply N.eqb_eq; exact SameId). rewrite E0. cbn [negb].
       rewrite D, OK. cbn [negb].
       assert (E : size <? 0 = false) by (apply Z.ltb_ge; lia). rewrite E.
+      fold_j_ents l newitems. rewrite (pown_heads_o U l o UO Il Io SameId newitems D).
       change (values _) with (values full). rewrite V. fold tmp. reflexivity.
     - cbn zeta. cbn [l_entries l_heads]. rewrite <- Htmp. split; [|split; [|split]].
       + intros k v. now apply from_entries_iff.
@@ -88,6 +89,7 @@ Section PBounded.
       assert (E0 : N.eqb (l_id l) (l_id o) = true) by (apply N.eqb_eq; exact SameId). rewrite E0. cbn [negb].
       rewrite D, OK. cbn [negb].
       assert (E : size <? 0 = false) by (apply Z.ltb_ge; lia). rewrite E.
+      fold_j_ents l newitems. rewrite (pown_heads_o U l o UO Il Io SameId newitems D).
       change (values _) with (values full). rewrite V. fold tmp. reflexivity.
     - cbn zeta. cbn [l_next]. rewrite <- Htmp. intros n. rewrite next_index_keys. cbn. tauto.
   Qed.
